@@ -309,6 +309,88 @@ def block_mark_history(args):
         shutil.rmtree(d, ignore_errors=True)
 
 
+def emptied_store_history(args):
+    """publishes (history ids stamped), then EVERY config is removed, a compaction runs while the store is empty, 0 or 3 more
+    publishes, a quiescent restart (snapshot of an empty config store + log tail), further publishes: the ids stamped
+    afterwards are new and larger than every id stamped before - the counter is part of what a snapshot must carry even when
+    nothing else is left to carry"""
+    wd, seed, n_before, tail = args
+    d = os.path.join(wd, "es%d" % seed)
+    shutil.rmtree(d, ignore_errors=True)
+    res = {"seed": seed, "snap": 10000, "restarts": 0, "draws": 0, "publishes": 0, "killed_mid_request": 0,
+           "classes": {"compaction-of-emptied-config-store/%d-before/%d-behind-snapshot" % (n_before, tail)}, "compactions": 0}
+    sess = None
+    try:
+        sess = noderig.NodeSession(d, snapshot_size=10000)
+        if not sess.call("barrier", min_index=1, bound_ms=15000).get("ok"):
+            res["inconclusive"] = "initial barrier failed"
+            return res
+        keys = [{"data_id": "es%d" % i, "group": "g", "tenant": ""} for i in range(3)]
+        stamped = []
+        n = 0
+
+        def publish(k, content):
+            nonlocal n
+            n += 1
+            r = sess.call("publish", content=content, **k)
+            if not r.get("ok"):
+                return
+            res["publishes"] += 1
+            name = "|%s|%s" % (k["group"], k["data_id"])
+            dump = sess.call("dump", config_keys=[k], service_keys=[])
+            hist = ((dump.get("configs") or {}).get(name) or {}).get("history") or []
+            if hist:
+                stamped.append((n, name, hist[0][0]))
+                res["draws"] += 1
+        for i in range(n_before):
+            publish(keys[i % 3], "v%d" % i)
+        for k in keys:
+            r = sess.call("remove", **k)
+            if r.get("ok") is False or r.get("err"):
+                res["inconclusive"] = "remove refused: %s" % r
+                return res
+        sess.call("barrier", min_index=0, bound_ms=15000)
+        if not sess.call("compact").get("ok"):
+            res["inconclusive"] = "compaction refused"
+            return res
+        res["compactions"] = 1
+        for i in range(tail):
+            publish(keys[i % 3], "t%d" % i)
+        sess.call("barrier", min_index=0, bound_ms=15000)
+        sess.call("sleep", ms=100)
+        if not noderig.settle_on_disk(sess, d):
+            res["inconclusive"] = "applied index did not reach the index file"
+            return res
+        sess.kill()
+        sess = noderig.NodeSession(d, snapshot_size=10000)
+        res["restarts"] += 1
+        if not sess.call("barrier", min_index=0, bound_ms=15000).get("ok"):
+            res["violations"] = [{"signature": "not-recovered-within-bound", "witness": {"history_seed": seed}}]
+            return res
+        for i in range(8):
+            publish(keys[i % 3], "x%d" % i)
+        seen = {}
+        prev = None
+        for (pn, name, ident) in stamped:
+            bad = "duplicate-id" if ident in seen else "id-went-backwards" if prev is not None and ident < prev[2] else None
+            if bad:
+                res["violations"] = [{"signature": "%s/config-history/after-compaction-of-emptied-config-store" % bad,
+                                      "witness": {"earlier": seen.get(ident) or list(prev), "later": [pn, name, ident], "publishes_before_removal": n_before,
+                                                  "publishes_between_compaction_and_restart": tail, "history_seed": seed, "ids": [x[2] for x in stamped[-24:]]}}]
+                break
+            seen[ident] = [pn, name]
+            prev = (pn, name, ident)
+        res["classes"] = sorted(res["classes"])
+        return res
+    except noderig.NodeDied as e:
+        res["inconclusive"] = "node session died: %s" % e
+        return res
+    finally:
+        if sess:
+            sess.kill()
+        shutil.rmtree(d, ignore_errors=True)
+
+
 def import_part(out, wd, seed):
     """ids stamped by the transfer IMPORT: node A builds > 100 history entries (3 keys x 45 publishes), exports; a fresh node B
     imports the file and then publishes itself; every history id on B is unique and B's own publishes continue above them"""
@@ -560,7 +642,8 @@ def run(tier, seed):
         jobs = [(wd, seed * 100000 + i, rnd.choice([25, 40, 60]), rnd.choice([5, 13, 25, 60]) if i % 3 == 0 else 10000) for i in range(n)]
         with ThreadPoolExecutor(max_workers=common.NCPU) as ex:
             bm = [ex.submit(block_mark_history, (wd, seed * 100000 + 70000 + i, [99, 100, 101, 199, 200, 201][i % 6])) for i in range(3 if tier == "quick" else 12)]
-            results = list(ex.map(one_history, jobs)) + [f.result() for f in bm]
+            es = [ex.submit(emptied_store_history, (wd, seed * 100000 + 75000 + i, [5, 99, 150][i % 3], [0, 3][(i // 3) % 2])) for i in range(3 if tier == "quick" else 12)]
+            results = list(ex.map(one_history, jobs)) + [f.result() for f in bm] + [f.result() for f in es]
         agg = {"restarts": 0, "draws": 0, "publishes": 0, "killed_mid_request": 0, "histories_with_compaction": 0}
         for r in results:
             out.evaluations += 1
